@@ -157,7 +157,8 @@ CLAIMED = {
              "requested, string initial values become constants) — every n, pairing, order. The semantic part of "
              "sequential_unroll beyond this reduction (strip_blackboxes, remove_unloaded, per-flop dict) is tied by exact "
              "correspondence and cycle-accurate simulation search only.",
-        note=TRUST + " `unroll_inputs` needs: no state output is itself an input node (counterexample CG/Proofs/UnrollCex.lean).",
+        note=TRUST + " The hypothesis the proof of `unroll_inputs` had forced (no state output is itself an input) was a genuine "
+             "defect, repaired in /repo (K33); the theorem now holds without it (regression example CG/Proofs/UnrollCex.lean).",
         ref="§4 C09"),
     "C18": dict(
         technique="Lean 4 theorems (soundness of the feedback-arc heuristic for any ordering, chained-copies invariant, "
